@@ -80,6 +80,11 @@ def cases(tier, seed):
             yield {"kind": "functor_map", "workers": w, "slow_value": 10 + pos, "slow_s": 0.2,
                    "calls": [{"n": n, "cs": cs}]}
     yield {"kind": "functor_map", "workers": -1, "calls": [{"n": 5, "cs": 1}, {"n": 40, "cs": 3}]}
+    # the input is any iterable: sized ones that are not sequences (dict = its keys, set-like views, deque), tuples, iterators
+    for shape in ("dict", "dict-keys", "deque", "tuple", "iter", "defaultdict"):
+        for n, cs in ((5, 2), (1, 1), (0, 3)):
+            yield {"kind": "functor_map", "workers": 2, "calls": [{"n": n, "cs": cs, "as": shape}]}
+            yield {"kind": "mul_p_map", "workers": 2, "calls": [{"n": n, "as": shape}]}
     # mul_p_map ---------------------------------------------------------------------------------------------------
     for n, w, lazy in itertools.product(ns, wss, (False, True)):
         yield {"kind": "mul_p_map", "workers": w, "calls": [{"n": n, "lazy": lazy}]}
@@ -113,6 +118,17 @@ def _fail(scenario, expected, observed):
             "observed": PU._short(observed)}
 
 
+def _shaped(data, call):
+    how = call.get("as")
+    if not how:
+        return data
+    import collections
+    vals = list(data)
+    return {"dict": lambda: {v: None for v in vals}, "dict-keys": lambda: {v: None for v in vals}.keys(), "deque": lambda: collections.deque(vals),
+            "tuple": lambda: tuple(vals), "iter": lambda: iter(vals),
+            "defaultdict": lambda: collections.defaultdict(list, {v: [] for v in vals})}[how]()
+
+
 def _values(k, call):
     base = 1000 * k + 10 if k else 10
     return list(range(base, base + call["n"]))
@@ -126,7 +142,7 @@ def _body_functor_map(case):
     with m:
         for k, call in enumerate(case["calls"]):
             values = _values(k, call)
-            data = PU.make_input(values, call.get("lazy", False))
+            data = _shaped(PU.make_input(values, call.get("lazy", False)), call)
             got = list(m(data, call["cs"]))
             exp = [_ref(x, case.get("big", 0)) for x in values]
             if got != exp:
@@ -149,7 +165,7 @@ def _body_mul_p_map(case):
     f = _f(case.get("slow_value"), case.get("slow_s", 0.0), case.get("big", 0), case.get("every_s", 0.0))
     for k, call in enumerate(case["calls"]):
         values = _values(k, call)
-        data = PU.make_input(values, call.get("lazy", False))
+        data = _shaped(PU.make_input(values, call.get("lazy", False)), call)
         got = mul_p_map(f, data, case["workers"])
         exp = [_ref(x, case.get("big", 0)) for x in values]
         if got != exp:
